@@ -33,8 +33,8 @@ TEXT = {
          "At every node of the range-coder walk (S = 2W, 4W, 8W) the sealed words are decoded with 8 adversarial suffixes of S/W+2 words and with a second message appended via with_backend; alphabets are iterated by size so that the rare multi-zero-word seals are reached (counter required non-zero).", TRUST, "§3 C11"),
  "C12": ("analytic bound and its inductive step evaluated at every node/edge of the exhaustive walks",
          "The global size bound (num_valid_bits / num_bits / words) AND the per-step inequality of its proof (potential growth <= info + rounding term) are checked on every node and edge of the encode-only ANS walk and the range walk for all 7 instantiations, incl. precisions with zero headroom.", TRUST + " Bounds evaluated in f64 with 1e-6 bit tolerance.", "§3 C12"),
- "C13": ("exhaustive input sweep on the real ChainCoder: all word strings x all model sequences x 3 continuations; 8 precision schedules",
-         "Every u8 string of length <= 2 (and longer strings over boundary words) x every model sequence of length 2-4 on 9 (Word,State,PRECISION) instantiations, from_binary and from_compressed, each followed by the three documented ways of re-importing remainders, re-encoding and reassembling; precision schedules P1->P2->P1 undone in reverse; documented errors are accepted, wrong reconstructions never.", TRUST, "§3 C13"),
+ "C13": ("exhaustive input sweep on the real ChainCoder: all word strings x all model sequences x 3 continuations; 8 precision schedules; single-step induction over ALL head values of ChainCoder<u8,u16> (hook verif_from_raw_parts)",
+         "Every u8 string of length <= 2 (and longer strings over boundary words) x every model sequence of length 2-4 on 9 (Word,State,PRECISION) instantiations, from_binary and from_compressed, each followed by the three documented ways of re-importing remainders, re-encoding and reassembling; precision schedules P1->P2->P1 undone in reverse; documented errors are accepted, wrong reconstructions never. Plus a single-step induction from arbitrary states built with the guarded hook: for all 255 compressed heads x all valid remainders heads of ChainCoder<u8,u16,P=2|4|8> (boundary heads on the wider instantiations) x all letters x several stack tops, decode-then-encode and encode-then-decode restore the coder bit for bit, the decoded symbol is the one the reference chunk rule gives, failing steps leave the coder untouched, and the remainders-head invariant is re-established.", TRUST, "§3 C13"),
  "C14": ("exhaustive input sweep with an independent bit-buffer reference + differential single-bit-flip / model-replacement oracle",
          "For every data string and model sequence: symbol i equals what model i assigns to chunk i as located by an independent 20-line reference of the bit buffer; every single-bit flip and every model replacement changes at most the owning position and never the out-of-data index.", TRUST, "§3 C14"),
  "C15": ("exhaustive enumeration of weight vectors; brute-force optimality oracle; reference Huffman with (weight,index) ties",
@@ -82,7 +82,7 @@ def main():
         "setup_cmd": "./check build",
         "hooks": {
             "guard": "constriction_verif",
-            "enable": "RUSTFLAGS='--cfg constriction_verif' (set by ./check for the harness build; with no hook commits present the flag changes nothing)",
+            "enable": "cargo feature `constriction_verif` of the constriction crate (off by default); mc/Cargo.toml depends on /repo with features = [\"constriction_verif\"], so ./check builds /repo's working tree with the hook on; the repository's own test suite never enables it",
             "baseline_off_cmd": "cd /repo && cargo nextest run --workspace --no-fail-fast --tool-config-file pb:/w/lib/nextest.toml --profile pb --test-threads 8 --offline || cargo test --workspace --no-fail-fast --offline",
             "source_commits": hooks_commits,
             "add_only": True,
